@@ -4,7 +4,8 @@
 # results -> /verif/seeded/<PROP>_<K>/{patch.diff,demo.diff,meta.json,confirm.json}
 set -u
 P=$1; K=$2; SRC=${3:-/tmp/seed/$P.out/$K}
-WT=/tmp/confirm_wt
+WT=${WT:-/tmp/confirm_wt}
+export WT
 OUT=/verif/seeded/${P}_$K
 mkdir -p $OUT
 cp $SRC/patch.diff $SRC/demo.diff $OUT/ 2>/dev/null
@@ -28,7 +29,7 @@ out,a,b=sys.argv[1],int(sys.argv[2]),int(sys.argv[3])
 base=json.load(open('/root/.vp/BASELINE.json'))
 stable=set(base['stable_pass'])
 passed=set(); failed=set()
-for f in glob.glob('/tmp/confirm_wt/target/nextest/pb/junit.xml'):
+for f in glob.glob(''+os.environ.get("WT","/tmp/confirm_wt")+'/target/nextest/pb/junit.xml'):
     for ts in ET.parse(f).getroot().iter('testsuite'):
         suite=ts.get('name')
         for tc in ts.iter('testcase'):
@@ -48,7 +49,7 @@ if broken:
     still=[]
     for t in broken[:40]:
         leaf=t.split(' ')[-1].split('::')[-1]
-        r_=subprocess.run(['cargo','nextest','run','--workspace','--offline','--no-fail-fast','-E','test(/%s$/)' % re.escape(leaf)],cwd='/tmp/confirm_wt',capture_output=True,text=True)
+        r_=subprocess.run(['cargo','nextest','run','--workspace','--offline','--no-fail-fast','-E','test(/%s$/)' % re.escape(leaf)],cwd=os.environ.get("WT","/tmp/confirm_wt"),capture_output=True,text=True)
         if r_.returncode!=0: still.append(t)
     retried=broken; broken=still
 else:
